@@ -190,9 +190,10 @@ func TestVerifConsts(t *testing.T) {
 	proc.abort()
 	_ = proc.result()
 	body := fmt.Sprintf("Definition c11_grace_ms : N := %d%%N.\nDefinition c11_grace2_ms : N := %d%%N.\nDefinition c11_wait_delay_ms : N := %d%%N.\n"+
-		"Definition c11_response_timeout_ms : N := %d%%N.\n",
+		"Definition c11_response_timeout_ms : N := %d%%N.\n"+
+		"Definition c11_max_client_response : N := %d%%N.\nDefinition c11_max_server_response : N := %d%%N.\n",
 		gracefulShutdownPeriod.Milliseconds(), gracefulShutdownPeriod.Milliseconds(), waitDelay.Milliseconds(),
-		serverResponseTimeout.Milliseconds())
+		serverResponseTimeout.Milliseconds(), maxClientResponseSize, maxServerResponseSize)
 	if err := os.WriteFile(out, []byte(body), 0o644); err != nil {
 		t.Fatal(err)
 	}
